@@ -26,6 +26,7 @@ type payloadStream struct{ baseStream }
 func init() { register(payloadStream{}) }
 
 func (payloadStream) Name() string    { return "payload" }
+func (payloadStream) Parallel() bool  { return true } // no shared state: cases run on all cores
 func (payloadStream) Props() []string { return []string{"C01", "C02", "C03", "C06"} }
 
 func causeOf(err error) string {
@@ -87,7 +88,7 @@ func newPlExec() *plExec {
 	}
 }
 
-func (payloadStream) NewExec() Exec    { return newPlExec() }
+func (payloadStream) NewExec() Exec   { return newPlExec() }
 func (e *plExec) Findings() []Finding { return e.fs }
 func (e *plExec) fail(prop, sig, d string) {
 	if len(e.fs) < 8 {
@@ -99,8 +100,8 @@ func (e *plExec) fail(prop, sig, d string) {
 
 type sigSnap struct {
 	id, start, size int
-	name          string
-	be            bool
+	name            string
+	be              bool
 }
 
 func (e *plExec) msgSnap(m *acmelib.Message) []sigSnap {
